@@ -1013,7 +1013,7 @@ func (b *broker) subCountSubscribers(msg *wamp.Invocation) wamp.Message {
 			Type:    msg.MessageType(),
 			Request: msg.Request,
 			Details: wamp.Dict{},
-			Error:   wamp.ErrNoSuchSession,
+			Error:   wamp.ErrNoSuchSubscription,
 		}
 	}
 	return &wamp.Yield{
